@@ -19,9 +19,9 @@ QUICK_N, THOROUGH_N = 400, 2500
 
 def strata(tier):
     return G.strata_grid(
-        maxsizes=(2, 1, 3, 4, 6, 0, None), ms_pos=(False, True), max_ops=35 if tier == 'quick' else 60,
-        weights={'call': 14, 'load': 3, 'dump': 2, 'loadk': 1, 'dumpk': 1, 'clear': 1, 'clearkeep': 0, 'awrite': 2, 'burst': 2, 'arch_off': 1, 'arch_on': 1},
-        pool=(3, 8), prefill_pct=30)
+        maxsizes=(2, 1, 3, 5, 6, 0, None), ms_pos=(False, True), max_ops=35 if tier == 'quick' else 60,
+        weights={'call': 14, 'load': 3, 'dump': 2, 'loadk': 1, 'dumpk': 1, 'clear': 1, 'clearkeep': 2, 'awrite': 2, 'burst': 2, 'sweep': 3, 'arch_off': 1, 'arch_on': 1},
+        pool=(3, 11), prefill_pct=30, raising_pct=20)
 
 
 def execute(case):
@@ -43,6 +43,12 @@ def check(case, tr):
         if s.kind != 'call':
             if s.exc is not None and s.kind in ('load', 'dump', 'loadk', 'dumpk', 'clear', 'clearkeep'):
                 out.append(Discrepancy('C05/%s/%s' % (s.kind, H.exc_sig(s.exc)), 'step %d %r raised %r' % (i, s.op, s.exc)))
+                return out
+            continue
+        if s.expected_exc is not None and s.exc is s.expected_exc:
+            # the function itself raised: nothing may have been stored, and the bound still holds
+            if len(s.post_mem) > max(len(s.pre_mem), ms if isinstance(ms, int) else 0) and ms is not None:
+                out.append(Discrepancy('C05/%s/grows-past-bound' % algo, 'step %d: raising call, size %d -> %d' % (i, len(s.pre_mem), len(s.post_mem))))
                 return out
             continue
         if s.exc is not None:
@@ -90,7 +96,18 @@ def classify(case, tr):
     ms = H.effective_maxsize(case)
     nt = False
     seq = []
+    for opk in set(o[0] for o in case['ops']):
+        if opk in ('sweep', 'clearkeep', 'burst'):
+            classes.append('op:' + opk)
+    raised = False
     for s in tr.steps:
+        if s.kind == 'call' and s.expected_exc is not None:
+            if not raised:
+                classes.append('raising_call')
+            raised = True
+        elif s.kind == 'call' and raised and isinstance(ms, int) and ms > 0 and s.pre_mem is not None and len(s.pre_mem) >= ms and not _has(s.pre_mem, s.key):
+            classes.append('overflow_after_raising_call')
+            raised = False
         if s.kind != 'call' or s.pre_mem is None or s.post_mem is None:
             seq.append(s.kind)
             continue
@@ -120,7 +137,7 @@ def classify(case, tr):
     return key, classes
 
 
-REQUIRED_CLASSES = ['overflow', 'call_while_overfull', 'overflow_purge_archived', 'ms_pos:True', 'maxsize:0', 'maxsize:None']
+REQUIRED_CLASSES = ['overflow', 'call_while_overfull', 'overflow_purge_archived', 'ms_pos:True', 'maxsize:0', 'maxsize:None', 'raising_call', 'overflow_after_raising_call', 'op:sweep', 'op:clearkeep']
 
 TRIGGERS = {}
 
